@@ -164,7 +164,7 @@ impl ErrInto<ControllerSendError> for DetachError { open spec fn conv(self) -> C
         final(inner).closes == old(inner).closes,       // (the control link is not closed by an exchange on it)
         final(inner).link == old(inner).link,
         (r is Err && r->Err_0 is LinkStateError) ==> (match old(inner).link.session_stop_reason.v {
-            Some(reason) => r->Err_0->LinkStateError_0 == LinkStateError::SessionStopped(reason),       // [C14.controller.stop-reason-reported] when the outcome never comes because the session stopped, the declare / discharge fails with the reason the session published
+            Some(reason) => r->Err_0->LinkStateError_0 == LinkStateError::SessionStopped(reason),       // [C14.controller.stop-reason-reported] when the outcome never comes because the session stopped, the declare / discharge fails with the reason the session published (the cell is read where the code reads it -- after the failed wait; in this model the cell does not change during the call, so WHEN it is read is not decided here: a read moved before the wait loses the anchor and is undecided, seed C14-15)
             None => r->Err_0->LinkStateError_0 is IllegalState,
         }),
         r is Ok ==> final(inner).sent@ == old(inner).sent@.push(Sent { body: Body::Discharge(Discharge { txn_id, fail: Some(fail) }), settled: false, state: None, batchable: false }),   // [C18.controller.discharge-on-wire] commit/rollback put exactly this transaction's id and the fail flag on the control link, unsettled
@@ -187,7 +187,7 @@ impl ErrInto<ControllerSendError> for DetachError { open spec fn conv(self) -> C
         final(inner).closes == old(inner).closes,       // (the control link is not closed by an exchange on it)
         final(inner).link == old(inner).link,
         (r is Err && r->Err_0 is LinkStateError) ==> (match old(inner).link.session_stop_reason.v {
-            Some(reason) => r->Err_0->LinkStateError_0 == LinkStateError::SessionStopped(reason),       // [C14.controller.stop-reason-reported] when the outcome never comes because the session stopped, the declare / discharge fails with the reason the session published
+            Some(reason) => r->Err_0->LinkStateError_0 == LinkStateError::SessionStopped(reason),       // [C14.controller.stop-reason-reported] when the outcome never comes because the session stopped, the declare / discharge fails with the reason the session published (the cell is read where the code reads it -- after the failed wait; in this model the cell does not change during the call, so WHEN it is read is not decided here: a read moved before the wait loses the anchor and is undecided, seed C14-15)
             None => r->Err_0->LinkStateError_0 is IllegalState,
         }),
         r is Ok ==> final(inner).sent@ == old(inner).sent@.push(Sent { body: Body::Declare(Declare { global_id }), settled: false, state: None, batchable: false }),   // [C18.controller.declare-on-wire]
